@@ -140,7 +140,8 @@ def roundtrip_cases(draw, tier="quick"):
         return {"via": via, "spec": {"empty_adaptive": True, "d": d, "w": draw(st.sampled_from([0.5, 1.0, 0.1, 2.5])),
                                      "fill": draw(st.one_of(st.none(), st.floats(-20, 20, allow_nan=False))), "name": draw(st.sampled_from([None, "a"]))}}
     dtypes = hgen.ALL_DTYPES + (["float128"] if draw(st.integers(0, 15)) == 0 else [])
-    spec = draw(hgen.hist_spec(dims=(1, 1, 2, 2, 3, 4), dtypes=dtypes, max_bins=5, nan_missed=True, near_err=True))
+    # narrow=True: also real gaps far below physt's own allclose tolerance - the edges must come back bit for bit
+    spec = draw(hgen.hist_spec(dims=(1, 1, 2, 2, 3, 4), dtypes=dtypes, max_bins=5, nan_missed=True, near_err=True, narrow=True))
     d = len(spec["axes"])
     spec["class"] = draw(st.sampled_from(hgen.CLASSES_BY_DIM[d]))
     if d > 1:
@@ -160,14 +161,17 @@ def check_collection(case, ctx: Ctx):
     ax = case["axis"]
     binning = hgen.build_axis(ax)
     from physt.binnings import as_binning
+    from physt.special_histograms import AzimuthalHistogram, RadialHistogram
 
     binning = as_binning(binning)
+    ctx.label("member_class_" + str(case.get("member_class", "plain")))
     members = []
     for i, m in enumerate(case["members"]):
         kw = {}
         if m.get("err2") is not None:
             kw["errors2"] = np.array(m["err2"], dtype=m["dtype"])
-        members.append(Histogram1D(binning, np.array(m["freq"], dtype=m["dtype"]), name=m.get("name"), underflow=m["missed"][0],
+        klass = {"radial": RadialHistogram, "azimuthal": AzimuthalHistogram}.get(case.get("member_class"), Histogram1D)
+        members.append(klass(binning, np.array(m["freq"], dtype=m["dtype"]), name=m.get("name"), underflow=m["missed"][0],
                                    overflow=m["missed"][1], inner_missed=m["missed"][2], keep_missed=m["keep_missed"], dtype=np.dtype(m["dtype"]), **kw))
     if members:
         col = ctx.call("HistogramCollection", HistogramCollection, *members, name=case.get("name"))
@@ -198,7 +202,8 @@ def collection_cases(draw, tier="quick"):
         err2 = draw(st.one_of(st.none(), st.lists(hgen.content_values(dtype), min_size=n, max_size=n)))
         members.append({"dtype": dtype, "freq": freq, "err2": err2, "name": draw(st.sampled_from([None, "a", "b", "č"])) if i else "first",
                         "missed": [draw(hgen.content_values(dtype)) for _ in range(3)], "keep_missed": draw(st.sampled_from([True, True, False]))})
-    return {"axis": ax, "members": members, "name": draw(st.sampled_from([None, "col"]))}
+    return {"axis": ax, "members": members, "name": draw(st.sampled_from([None, "col"])),
+            "member_class": draw(st.sampled_from(["plain", "plain", "radial", "azimuthal"]))}
 
 
 # ---------------------------------------------------------------------------------
